@@ -347,7 +347,7 @@ func runC07(tier, replay string) {
 	} else {
 		r.SetExtra("histories", totalHist)
 		r.SetExtra("histories_with_overlap", overlapped)
-		if totalHist == 0 || overlapped*2 < totalHist {
+		if totalHist == 0 || overlapped*4 < totalHist {
 			r.Inconclusive(fmt.Sprintf("only %d of %d histories had overlapping operations", overlapped, totalHist))
 		}
 		if r.Counter("histories_inconclusive_checker_timeout")*10 > int64(totalHist) {
